@@ -11,6 +11,7 @@ import (
 	"encoding/hex"
 	"encoding/json"
 	"fmt"
+	"github.com/shutter-network/rolling-shutter/rolling-shutter/medley/identitypreimage"
 	"math/big"
 	"net/http"
 	"net/http/httptest"
@@ -49,8 +50,8 @@ type Config struct {
 }
 
 const (
-	slotsPerEpoch  = 4
-	registeredVal  = 7
+	slotsPerEpoch   = 4
+	registeredVal   = 7
 	unregisteredVal = 8
 )
 
@@ -128,7 +129,7 @@ func newNode(ctx context.Context, cfg *gnosis.Config, bc *beaconapiclient.Client
 	return n, nil
 }
 
-func (n *node) close() { n.pool.Close(); n.srv.Close() }
+func (n *node) close()      { n.pool.Close(); n.srv.Close() }
 func (n *node) db() *kdb.DB { return n.srv.State().(*kdb.DB) }
 
 type tickOut struct {
@@ -136,6 +137,28 @@ type tickOut struct {
 	err     error
 	ids     [][]byte
 	block   uint64
+}
+
+// issued keeps the identity lists of the last triggers as the implementation handed them over (the very slices,
+// which the key share handler reads later on) next to a copy taken at that moment.
+type issuedTrigger struct {
+	slot uint64
+	orig []identitypreimage.IdentityPreimage
+	snap [][]byte
+}
+
+var issued []issuedTrigger
+
+// issuedChanged reports a trigger whose identity list no longer reads as it did when it was issued.
+func issuedChanged() string {
+	for _, it := range issued {
+		for i := range it.orig {
+			if !bytes.Equal(it.orig[i], it.snap[i]) {
+				return fmt.Sprintf("the trigger issued for slot %d listed identity %d as %x; after later slots were handled the same trigger reads %x", it.slot, i, it.snap[i], []byte(it.orig[i]))
+			}
+		}
+	}
+	return ""
 }
 
 var devnull, _ = os.OpenFile(os.DevNull, os.O_WRONLY, 0)
@@ -153,6 +176,10 @@ func (n *node) tick(ctx context.Context, slot uint64) tickOut {
 		out.block = ev.Value.BlockNumber
 		for _, id := range ev.Value.IdentityPreimages {
 			out.ids = append(out.ids, append([]byte{}, id...))
+		}
+		issued = append(issued, issuedTrigger{slot: slot, orig: ev.Value.IdentityPreimages, snap: out.ids})
+		if len(issued) > 6 {
+			issued = issued[len(issued)-6:]
 		}
 	default:
 	}
@@ -657,6 +684,10 @@ func (r *runner) scenario(ctx context.Context, rnd *hx.Rand, bc *beacon, client 
 			}
 			b.close()
 			r.res.Count("agreement-checked")
+			if what := issuedChanged(); what != "" {
+				r.violate("spec", "identities", "identity lists already handed to the key share handler changed: "+what, nil)
+				break
+			}
 		case k < 76: // a keys message is received
 			eon := int64(rnd.Intn(nsets))
 			p := int64(rnd.Intn(int(nextIndex[eon]) + 3))
